@@ -35,7 +35,7 @@ def run(ck):
     groups = []
     for g in P:
         g = dict(g); g["calls"] = calls_for(g); groups.append(g)
-    fam = gen.part_families(ck.rng, 300 if q else 4000, maxn=9 if q else 10, maxv=60, maxk=4)
+    fam = gen.part_families(ck.rng, 300 if q else 15000, maxn=9 if q else 10, maxv=60, maxk=4)
     for g in fam:
         if g["k"] ** len(g["vals"]) > 1200000:
             g["vals"] = g["vals"][:8]
@@ -56,7 +56,7 @@ def run(ck):
     fails = ck.judge("JPart", traces, {"C08"}, what="C08 ratio bounds / gap / round-robin shape", chunk=4000)
     ck.classify(fails, ctx_of)
     # large-instance half of the quantifier: planted perfect partitions (certificate => OPT = total/k), judged by JCert
-    big = gen.planted_partitions(ck.rng, 40 if q else 600, maxitems=60 if q else 300)
+    big = gen.planted_partitions(ck.rng, 40 if q else 2500, maxitems=60 if q else 300)
     for g in big:
         g["calls"] = calls_for(g, its=(10, 3))
     tb = core.pmap(drive.run_part_group, big)
